@@ -10,10 +10,12 @@
     stop setting and random oracle.
   * `C19_cap_is_prefix`: with a binding cap the result is the prefix of the uncapped result.
   * `C19_time_never_backwards`: the event `pick_next` returns is never before the clock.
-  * `C19_no_bug_no_internal`, `C19_no_bug_no_action`, `C19_no_divergence`: the `BUG:` assertions
-    of `do_internal_timer` / `do_scheduled_action` cannot fire and the aggregate-delay recursion
-    cannot loop (the remaining two assertions, "cancel / update timer in scheduled action", need
-    the slot-content invariant and are covered by the correspondence and the panic monitor only).
+  * `C19_no_assertion_fires`: whatever the inputs, a run never ends in one of the five `BUG:`
+    assertions, in "time moves backwards", in exhausted `pick_next` fuel or in divergence; the
+    only possible faults are environmental (checked duration arithmetic, unwraps, a framework
+    panic, an out-of-range machine id, an empty queue, invalid machines, `pps as u32 == 0`).
+  * `C19_no_bug_no_internal`, `C19_no_bug_no_action`, `C19_no_divergence`: the per-branch facts
+    behind it.
   * `C19_function_of_inputs`: the run is a function of (machines, queue, args, oracle) and, when
     an iteration cap is set, does not depend on the model's own iteration budget.
   * `C19_pickNext_fuel`: `pick_next`'s recursion always terminates within `pickMeasure + 1` calls.
@@ -24,6 +26,7 @@ import MbVerif.Proofs.SimRecord
 import MbVerif.Proofs.SimCap
 import MbVerif.Proofs.SimFuel
 import MbVerif.Proofs.SimBugFree
+import MbVerif.Proofs.SimTotal
 import MbVerif.Spec.C19
 
 namespace Mb.C19
@@ -120,6 +123,25 @@ theorem C19_no_bug_no_action (st : St σ) (s : Nat) (h : pickDecide st = .ok (.a
     chosen when a delay is pending, and popping it shrinks the termination measure. -/
 theorem C19_no_divergence (st : St σ) (h : pickDecide st = .ok .agg) : pickAgg st ≠ .error .diverge :=
   pickAgg_no_diverge h
+
+/-- **No internal consistency assertion ever fires.**  For every machine set, queue, argument
+    record and oracle: if the run ends in a fault at all, the fault is an environmental one
+    (checked `Duration` arithmetic, an `unwrap`, a panic inside the framework, a machine id out
+    of range, an empty queue, invalid machines / fractions, `pps as u32 == 0`) — never one of the
+    five `BUG:` assertions, never "next event moves time backwards", never exhausted `pick_next`
+    fuel, never divergence. -/
+theorem C19_no_assertion_fires (budget : Nat) (mc ms : List Machine) (sq : SimQueue) (a : Args) (orc : σ)
+    (f : SimFault) (h : (simAdvanced ρ budget mc ms sq a orc).stop = .fault f) : f.isBug = false := by
+  unfold simAdvanced at h
+  have hinit := initState_total ρ (mc := mc) (ms := ms) (sq := sq) (a := a) (orc := orc)
+  cases hi : initState ρ mc ms sq a orc with
+  | error f0 =>
+    simp only [hi] at h
+    cases h
+    exact hinit.1 _ hi
+  | ok st =>
+    simp only [hi, finish_stop] at h
+    exact loop_total ρ a (loopFuel a budget) st 0 0 (hinit.2 st hi) f h
 
 /-- **Function of the inputs.**  With an iteration cap the result does not depend on the model's
     own loop budget: the run is determined by machines, queue, arguments and the oracle alone. -/
